@@ -2,7 +2,7 @@
    of chunk ranges, restore plan, file-part writes).  Statements closed by [exact]. *)
 From Coq Require Import List Arith NArith ZArith Lia Bool Permutation.
 From Replicat Require Import Lib.ListX Model.Stream Model.Dedup Model.Chunker
-  Proofs.StreamProofs Proofs.RoundTrip Proofs.ChunkerProofs Proofs.C01Tie.
+  Model.FsTree Proofs.StreamProofs Proofs.RoundTrip Proofs.ChunkerProofs Proofs.C01Tie Proofs.FsTreeProofs.
 Import ListNotations.
 
 Section C01.
@@ -64,6 +64,17 @@ Print Assumptions C01_restore_every_file.
 Print Assumptions C01_roundtrip_gclmul.
 Print Assumptions C01_tiling.
 Print Assumptions C01_writes_restore.
+
+(* the restore target as a map from paths to contents: with pairwise distinct restore paths every
+   restored path ends up holding exactly its file, whatever it held before, and every other path is
+   left exactly as it was (no other file created, bystanders untouched) *)
+Theorem C01_restore_tree : forall {B} (zero : B) chunks (items : list (@item B)) (files : list (list B)) (f : @fs B),
+  NoDup (map (fun it : item => fst (fst it)) items) ->
+  Forall2 (fun (it : item) file => forall pre, restore_file zero chunks (snd (fst it)) (snd it) pre = file) items files ->
+  Forall2 (fun (it : item) file => restore_all zero chunks items f (fst (fst it)) = Some file) items files /\
+  (forall q, ~ In q (map (fun it : item => fst (fst it)) items) -> restore_all zero chunks items f q = f q).
+Proof. exact (fun B zero => restore_tree zero). Qed.
+Print Assumptions C01_restore_tree.
 
 (* chunk table / de-duplicated path arguments: first-occurrence order, every element once, and a
    ref's index leads back to its digest *)
